@@ -646,7 +646,9 @@ pub(crate) fn is_terminal_snippet_clean(text: &str) -> bool {
 ///
 /// This is important because snippet renderers tend to use byte offsets for spans.
 /// We:
-/// - Replace ASCII control bytes (except '\n' and '\t') and DEL with space (0x20).
+/// - Replace ASCII control bytes (except '\n' and '\t') and DEL with `?` (a visible
+///   placeholder: a run of blanks at the start of the error line would be trimmed by the
+///   snippet renderer, which then misplaces a marker that points into that run).
 /// - Replace UTF-8 encoded C1 controls (0xC2 0x80..=0x9F) with NBSP (0xC2 0xA0).
 ///
 /// This breaks ANSI/OSC escapes by neutralizing their introducers (ESC or C1).
@@ -657,7 +659,7 @@ pub(crate) fn sanitize_terminal_snippet_preserve_len(s: String) -> String {
     for x in &mut bytes {
         let b = *x;
         if (b < 0x20 && b != b'\n' && b != b'\t') || b == 0x7F {
-            *x = b' ';
+            *x = b'?';
         }
     }
 
